@@ -16,6 +16,15 @@ func replayOther(t *testing.T, env *vstat.Envelope, p string) {
 		for i := 0; i < 50; i++ { // the schedule is not reproducible, the programs are
 			vstat.For("C01").Report(t, "TestReplay", c, runStress(c))
 		}
+	case "TestC01LongWaiter":
+		var sc LeaseScenario
+		if _, err := vstat.LoadReplay(p, &sc); err != nil {
+			t.Fatalf("cannot decode %s: %v", p, err)
+		}
+		resetTimers()
+		defer drainTimers()
+		_, v := RunLease(sc)
+		vstat.For("C01").Report(t, "TestReplay", sc, v)
 	case "TestC05Rapid", "TestC05EveryK":
 		var sc LeaseScenario
 		if _, err := vstat.LoadReplay(p, &sc); err != nil {
